@@ -16,6 +16,7 @@ CONSTANTS
   OwnVary <- MCOwnVary
   MaxReqs = 1
   WrongDesign <- MCWrong
+  SameObj = TRUE
   MaxFaults = 1
 INVARIANT TypeOK
 INVARIANT ReqTopDown
